@@ -321,6 +321,13 @@ class Ctx:
         for k in range(n):
             for j, r in zip(idx[k], parts[k]):
                 out[j] = r
+        slow = sum(1 for r in out if isinstance(r, dict) and r.get("kind") == "SlowCompile")
+        if slow:
+            self.cov["jobs_skipped_slow_sympy"] = self.cov.get("jobs_skipped_slow_sympy", 0) + slow
+            self.notes.append(f"{script}: {slow} of {len(jobs)} job(s) exceeded the per-job time limit inside sympy (simplify / code generation) and were skipped")
+            if slow * 4 > len(jobs):
+                self.broken.append({"kind": "correspondence", "name": f"{script}: {slow} of {len(jobs)} jobs did not finish within the per-job time limit",
+                                    "detail": "the implementation is too slow to be checked on this stream"})
         return out
 
     # ------------------------------------------------------------------ coverage accounting
@@ -337,6 +344,8 @@ class Ctx:
     # ------------------------------------------------------------------ violations
     def violation(self, what: str, replay: dict, key: str | None = None):
         """A concrete failing input was found on the implementation."""
+        if "SlowCompile" in what or "SlowCompile" in json.dumps(replay, default=str)[:20000]:
+            return      # a job skipped for its compile time (counted in run_impl_jobs) is not a failing input
         self.violations.append({"what": what, "replay": replay, "key": key or what})
 
     def finish(self, level_rule: str, extra_cov: dict | None = None) -> int:
